@@ -2,8 +2,8 @@
    Statements only; every proof is [exact <lemma>] / a one-line application.
 
    [reachable (start rows n) s]: s is reached from a fresh Session on a table holding [rows] by any
-   history of operations (get, new, set, drop, gc.collect, flush, commit, expire, expire_all, delete,
-   link) interleaved with ANY runs [collect l] of a collector that frees only unreachable objects
+   history of operations (get, new, set val, set w, in-place change + flag_modified, partial expire of one
+   attribute, drop, gc.collect, flush, commit, expire, expire_all, delete, link) interleaved with ANY runs [collect l] of a collector that frees only unreachable objects
    (CPython's reference counting after every operation is one such interleaving: c48_cpython_run). *)
 From Coq Require Import List ZArith NArith Bool.
 Import ListNotations.
@@ -12,41 +12,64 @@ From SAV.orm Require Import WeakRef WeakRefBase WeakRefInv WeakRefFlush WeakRefM
 (* an object of the session that carries an unflushed change is never freed and keeps the change,
    whatever references the application drops (or ties into cycles) and however often any collector runs *)
 Theorem c48_modified_never_collected : forall rows n s, reachable (start rows n) s ->
-  forall o k v, pending s o k v -> forall h : list refop, pending (ref_run h s) o k v.
+  forall w o k v, pending w s o k v -> forall h : list refop, pending w (ref_run h s) o k v.
 Proof.
-  intros rows n s R o k v P h.
-  exact (proj1 (modified_never_collected h s o k v (reachable_inv _ s (inv_start rows n) R) P)).
+  intros rows n s R w o k v P h.
+  exact (proj1 (modified_never_collected w h s o k v (reachable_inv _ s (inv_start rows n) R) P)).
 Qed.
 Print Assumptions c48_modified_never_collected.
 
 (* ... hence the next flush (or commit) writes it, references or not; no collection can lose it *)
 Theorem c48_flush_writes_dropped_changes : forall rows n s, reachable (start rows n) s ->
-  forall o k v, pending s o k v -> forall h : list refop,
-  db_get k (db (flush (ref_run h s))) = Some v /\
-  db_get k (db (fst (step_cpy Flush (ref_run h s)))) = Some v /\
-  db_get k (db (fst (step_cpy Commit (ref_run h s)))) = Some v.
+  forall w o k v, pending w s o k v -> forall h : list refop,
+  option_map (col w) (db_get k (db (flush (ref_run h s)))) = Some v /\
+  option_map (col w) (db_get k (db (fst (step_cpy Flush (ref_run h s))))) = Some v /\
+  option_map (col w) (db_get k (db (fst (step_cpy Commit (ref_run h s))))) = Some v.
 Proof.
-  intros rows n s R o k v P h.
-  exact (flush_writes_dropped_changes h s o k v (reachable_inv _ s (inv_start rows n) R) P).
+  intros rows n s R w o k v P h.
+  exact (flush_writes_dropped_changes w h s o k v (reachable_inv _ s (inv_start rows n) R) P).
 Qed.
 Print Assumptions c48_flush_writes_dropped_changes.
 
-(* every attribute change made through a reference to an object of the session is such a pending change *)
+(* every attribute change made through a reference to an object of the session - a set of val or w, or an
+   in-place change of val registered with flag_modified (what sqlalchemy.ext.mutable does) - is such a
+   pending change *)
 Theorem c48_set_makes_pending : forall rows n s, reachable (start rows n) s ->
   forall i o, slot_get s i = Some o -> in_del (heap s o) = false ->
   (in_new (heap s o) = true \/ in_map (heap s o) = true) ->
-  pending (fst (step (SetV i) s)) o (pk (heap s o)) (next_val s).
+  pending false (fst (step (SetV i) s)) o (pk (heap s o)) (next_val s) /\
+  pending true (fst (step (SetW i) s)) o (pk (heap s o)) (next_val s) /\
+  (in_val (heap s o) = true -> pending false (fst (step (Mut i) s)) o (pk (heap s o)) (next_val s)).
 Proof. intros rows n s R i o. exact (set_makes_pending s i o (reachable_inv _ s (inv_start rows n) R)). Qed.
 Print Assumptions c48_set_makes_pending.
 
-Theorem c48_new_is_pending : forall s i, pending (fst (step (New i) s)) (nobj s) (next_pk s) (next_val s).
+Theorem c48_new_is_pending : forall s i, pending false (fst (step (New i) s)) (nobj s) (next_pk s) (next_val s).
 Proof. exact new_is_pending. Qed.
 Print Assumptions c48_new_is_pending.
 
+(* a partial expire (session.expire(obj, [attr])) discards the change of the named attribute only; the change
+   to the other attribute stays pending - and, being pending, pins the object (c48_modified_never_collected) *)
+Theorem c48_partial_expire_keeps_other_change : forall rows n s, reachable (start rows n) s ->
+  forall w i o k v, slot_get s i = Some o -> pending w s o k v ->
+  pending w (fst (step (ExpireAttr i (negb w)) s)) o k v.
+Proof.
+  intros rows n s R w i o k v. exact (partial_expire_keeps_other w s i o k v (reachable_inv _ s (inv_start rows n) R)).
+Qed.
+Print Assumptions c48_partial_expire_keeps_other_change.
+
+(* the invariant behind it, for every operation incl. partial expire and flag_modified: a live state of the
+   session with state.modified set holds the strong reference _strong_obj *)
+Theorem c48_modified_implies_strong_reference : forall rows n s, reachable (start rows n) s ->
+  forall o, alive (heap s o) = true -> sess (heap s o) = true -> modified (heap s o) = true -> strong (heap s o) = true.
+Proof.
+  intros rows n s R o A S M. exact (okb_modified_strong _ (i_ok s (reachable_inv _ s (inv_start rows n) R) o) A S M).
+Qed.
+Print Assumptions c48_modified_implies_strong_reference.
+
 (* while the change is pending, get() returns that very object *)
 Theorem c48_pending_identity_stable : forall rows n s, reachable (start rows n) s ->
-  forall o k v, pending s o k v -> in_map (heap s o) = true -> lookup k s = Some o.
-Proof. intros rows n s R o k v. exact (pending_identity_stable s o k v (reachable_inv _ s (inv_start rows n) R)). Qed.
+  forall w o k v, pending w s o k v -> in_map (heap s o) = true -> lookup k s = Some o.
+Proof. intros rows n s R w o k v. exact (pending_identity_stable w s o k v (reachable_inv _ s (inv_start rows n) R)). Qed.
 Print Assumptions c48_pending_identity_stable.
 
 (* the identity map stays consistent: every entry is a live object, is the only entry of its primary key
@@ -92,19 +115,29 @@ Print Assumptions c48_cpython_run.
 (* ---- non-vacuity ---- *)
 (* load row 1, modify, drop the reference, tie nothing, collect: the object (0) is alive and pending;
    the flush writes the value 100 *)
-Definition ex1 := run_cpy [Load 0 1; SetV 0; Drop 0; Gc] (start [(1%N, 10%Z)] 1).
-Example c48_ex_pending : pending ex1 0 1%N 100%Z /\ app_ref ex1 0 = false.
+Definition ex1 := run_cpy [Load 0 1; SetV 0; Drop 0; Gc] (start [(1%N, (10%Z, 5%Z))] 1).
+Example c48_ex_pending : pending false ex1 0 1%N 100%Z /\ app_ref ex1 0 = false.
 Proof. vm_compute. repeat split; auto. Qed.
-Example c48_ex_flush : db_get 1%N (db (fst (step_cpy Flush ex1))) = Some 100%Z
+Example c48_ex_flush : db_get 1%N (db (fst (step_cpy Flush ex1))) = Some (100%Z, 5%Z)
                        /\ alive (heap (fst (step_cpy Flush ex1)) 0) = false.
 Proof. vm_compute. split; reflexivity. Qed.
 (* an unmodified object on an unreachable cycle is held until gc.collect(), then released *)
-Definition ex2 := run_cpy [Load 0 1; Link 0 0; Drop 0] (start [(1%N, 10%Z)] 1).
+Definition ex2 := run_cpy [Load 0 1; Link 0 0; Drop 0] (start [(1%N, (10%Z, 5%Z))] 1).
 Example c48_ex_release : alive (heap ex2 0) = true /\ in_map (heap ex2 0) = true /\ modified (heap ex2 0) = false /\
   alive (heap (fst (step_cpy Gc ex2)) 0) = false /\ lookup 1%N (fst (step_cpy Gc ex2)) = None.
 Proof. vm_compute. repeat split; reflexivity. Qed.
 (* a deleted and modified object is an unreachable cycle after the flush (nothing pending is lost) *)
 Example c48_ex_deleted_cycle :
-  let s := run_cpy [Load 0 1; SetV 0; Delete 0; Flush; Drop 0] (start [(1%N, 10%Z)] 1) in
+  let s := run_cpy [Load 0 1; SetV 0; Delete 0; Flush; Drop 0] (start [(1%N, (10%Z, 5%Z))] 1) in
   alive (heap s 0) = true /\ refcount s 0 = 1 /\ rooted s 0 = false /\ db s = [].
 Proof. vm_compute. repeat split; reflexivity. Qed.
+(* the only pending change is an in-place one (flag_modified) / two attributes changed and one expired again:
+   the object survives the loss of every reference and the flush writes the remaining change *)
+Example c48_ex_inplace :
+  let s := run_cpy [Load 0 1; Mut 0; Drop 0; Gc] (start [(1%N, (10%Z, 5%Z))] 1) in
+  pending false s 0 1%N 100%Z /\ db (fst (step_cpy Flush s)) = [(1%N, (100%Z, 5%Z))].
+Proof. vm_compute. repeat split; auto. Qed.
+Example c48_ex_partial_expire :
+  let s := run_cpy [Load 0 1; SetV 0; SetW 0; ExpireAttr 0 true; Drop 0; Gc] (start [(1%N, (10%Z, 5%Z))] 1) in
+  pending false s 0 1%N 100%Z /\ pendw (heap s 0) = None /\ db (fst (step_cpy Flush s)) = [(1%N, (100%Z, 5%Z))].
+Proof. vm_compute. repeat split; auto. Qed.
